@@ -436,10 +436,22 @@ func (x *Exec) poolWeight(v1 []types.Transaction, v2 []types.V2Transaction) (w u
 // mineAudit assembles a block from the reported pool on top of the tip (own assembly, and the
 // repository's miner) and requires the independent ledger, a copy of the node and -- sampled -- a
 // fresh node that only ever sees this chain linearly to accept it.
-func (x *Exec) mineAudit(v1 []types.Transaction, v2 []types.V2Transaction, deep bool) (ok bool) {
+// A minedBlock is what coreutils.MineBlock assembled from the node's pool: the catalogued
+// transactions of its body in block order, and the verdicts on it.
+type minedBlock struct {
+	ids       []int // names, v1 then v2 (len(Txs)+1 for a transaction the catalogue does not know)
+	assembled bool  // MineBlock returned a block
+	accepted  bool  // by core on the independent ledger, and (when checked) by a copy of the node and a fresh linear node
+	cut       bool  // the reported pool outweighs one block: the assembler had to cut
+	prefix    bool  // the body is a prefix of the reported sequence
+}
+
+// ok is the verdict on the harness' OWN assembly (the `mine` flag of the Obs event); the verdict on
+// what coreutils.MineBlock assembled travels in mb and becomes the Mine event.
+func (x *Exec) mineAudit(v1 []types.Transaction, v2 []types.V2Transaction, deep bool) (ok bool, mb minedBlock) {
 	ok = true
 	l := x.S.Node(x.Tip).L
-	// MineBlock stops at the block weight limit; so does our own assembly
+	// our own assembly: the longest prefix of the reported pool that fits into one block
 	cs := l.CS
 	var w uint64
 	var m1 []types.Transaction
@@ -458,34 +470,71 @@ func (x *Exec) mineAudit(v1 []types.Transaction, v2 []types.V2Transaction, deep 
 			m2 = append(m2, t)
 		}
 	}
+	mb.cut = len(m1)+len(m2) < len(v1)+len(v2)
 	own := x.S.W.AssembleBlock(l, m1, m2, x.S.nextTag())
 	if err := l.Validate(own); err != nil {
 		x.mismatch("audit:c05:mine:own-block-invalid", "a block assembled from the reported pool (%d v1, %d v2) on tip %d is invalid for core on the independent ledger: %v", len(m1), len(m2), x.Tip, err)
 		ok = false
 	}
 	x.Res.Count("mined_own", 1)
-	if !deep {
-		return
-	}
+	// the repository's own assembler, ALWAYS: coreutils.MineBlock on the real node's pool
 	blocks := []types.Block{own}
+	mb.accepted, mb.prefix = true, true
 	func() {
 		defer func() {
 			if r := recover(); r != nil {
 				x.mismatch("audit:c05:mine:mineblock-panic", "coreutils.MineBlock panicked: %v", r)
-				ok = false
+				mb.accepted = false
 			}
 		}()
-		if b, found := coreutils.MineBlock(x.N.CM, x.S.W.Addr, 10*time.Second); found {
-			blocks = append(blocks, b)
-			x.Res.Count("mined_mineblock", 1)
-			if err := l.Validate(b); err != nil {
-				x.mismatch("audit:c05:mine:mineblock-invalid", "coreutils.MineBlock built a block on tip %d that core rejects on the independent ledger: %v", x.Tip, err)
-				ok = false
-			}
-		} else {
+		b, found := coreutils.MineBlock(x.N.CM, x.S.W.Addr, 10*time.Second)
+		if !found {
 			x.mismatch("harness:mineblock-timeout", "MineBlock found no nonce")
+			return
+		}
+		mb.assembled = true
+		blocks = append(blocks, b)
+		x.Res.Count("mined_mineblock", 1)
+		if mb.cut {
+			x.Res.Count("mined_mineblock_cut_at_block_weight", 1)
+		}
+		mb.ids = []int{}
+		for _, t := range b.Transactions {
+			if p, ok := x.S.ByID[t.ID()]; ok {
+				mb.ids = append(mb.ids, p.Name)
+			} else if len(t.SiacoinInputs)+len(t.SiafundInputs) > 0 {
+				mb.ids = append(mb.ids, len(x.S.Txs)+1)
+			}
+		}
+		for _, t := range b.V2Transactions() {
+			if p, ok := x.S.ByID[t.ID()]; ok {
+				mb.ids = append(mb.ids, p.Name)
+			} else if len(t.SiacoinInputs)+len(t.SiafundInputs) > 0 {
+				mb.ids = append(mb.ids, len(x.S.Txs)+1)
+			}
+		}
+		// the pool only promises that its PREFIXES are valid: the body must be one
+		n1, _ := x.names1(v1)
+		n2, _ := x.names2(v2)
+		all := append(append([]int{}, n1...), n2...)
+		prefix := len(mb.ids) <= len(all)
+		for i := 0; prefix && i < len(mb.ids); i++ {
+			prefix = mb.ids[i] == all[i]
+		}
+		if !prefix {
+			x.mismatch("audit:c05:mine:mineblock-not-a-prefix", "coreutils.MineBlock assembled %v from the reported pool %v (weight limit of a block reached: %v): not a prefix of the reported sequence", mb.ids, all, mb.cut)
+			mb.prefix = false
+		}
+		if err := l.Validate(b); err != nil {
+			x.mismatch("audit:c05:mine:mineblock-invalid", "coreutils.MineBlock built a block (%v of pool %v) on tip %d that core rejects on the independent ledger: %v", mb.ids, all, x.Tip, err)
+			mb.accepted = false
 		}
 	}()
+	// acceptance by the node and by a fresh linear node: sampled, and always when the assembler had to
+	// cut the pool or something is already wrong
+	if !deep && !mb.cut && ok && mb.accepted && mb.prefix {
+		return
+	}
 	for bi, b := range blocks {
 		who := []string{"own", "mineblock"}[bi]
 		// the node itself (a copy of its store: the history must go on undisturbed)
@@ -496,7 +545,11 @@ func (x *Exec) mineAudit(v1 []types.Transaction, v2 []types.V2Transaction, deep 
 		}
 		if err := cp.CM.AddBlocks([]types.Block{b}); err != nil || cp.CM.Tip().ID != b.ID() {
 			x.mismatch("audit:c05:mine:node-rejects:"+who, "the node rejects the block built from its own reported pool on tip %d: %v", x.Tip, err)
-			ok = false
+			if bi == 1 {
+				mb.accepted = false
+			} else {
+				ok = false
+			}
 		}
 		twin := chainx.NewNode(x.S.W, false)
 		if err := twin.CM.AddBlocks(x.blocksTo(x.Tip)); err != nil {
@@ -505,11 +558,35 @@ func (x *Exec) mineAudit(v1 []types.Transaction, v2 []types.V2Transaction, deep 
 		}
 		if err := twin.CM.AddBlocks([]types.Block{b}); err != nil || twin.CM.Tip().ID != b.ID() {
 			x.mismatch("audit:c05:mine:twin-rejects:"+who, "a fresh linear node rejects the block built from the reported pool on tip %d: %v", x.Tip, err)
-			ok = false
+			if bi == 1 {
+				mb.accepted = false
+			} else {
+				ok = false
+			}
 		}
 		x.Res.Count("mined_accepted_by_node_and_twin", 1)
 	}
 	return
+}
+
+// emitMine records what coreutils.MineBlock assembled as an event of its own (judged by the
+// specification: prefix of the reported pool, self-contained, within the block weight, accepted).
+func (x *Exec) emitMine(mb minedBlock) {
+	if !mb.assembled {
+		return
+	}
+	for _, n := range mb.ids {
+		if n > len(x.S.Txs) {
+			return // nothing the specification could name (reported by the audits)
+		}
+	}
+	r := "accepted"
+	if !mb.accepted {
+		r = "rejected"
+	}
+	x.emit(map[string]any{"op": "Mine", "r": r, "ids": mb.ids})
+	x.note("mine %v -> %s", mb.ids, r)
+	x.Res.Eval(fmt.Sprintf("%s|mine|%d|%v|%v|%v", x.S.Name, x.Tip, x.p1, x.p2, mb.ids))
 }
 
 // Obs reports the pool (PoolTransactions + V2PoolTransactions), audits it and records it.
@@ -561,9 +638,10 @@ func (x *Exec) Obs() {
 	}
 	x.Res.Count("prefix_validations", 1)
 	mine := true
+	var mined minedBlock
 	if valid {
 		deep := x.TwinEvery > 0 && x.obsCount%x.TwinEvery == 0
-		mine = x.mineAudit(v1, v2, deep)
+		mine, mined = x.mineAudit(v1, v2, deep)
 	}
 	// aliasing of query results: mutate the returned v2 transactions, reorder both lists, ask again
 	alias := true
@@ -716,6 +794,11 @@ func (x *Exec) Obs() {
 	x.fresh = true
 	x.accWeight = x.poolWeight(v1, v2)
 	x.Res.Eval(fmt.Sprintf("%s|obs|%d|%v|%v", x.S.Name, x.Tip, p1, p2))
+	// the interesting assemblies are events of their own: the pool outweighs one block (the assembler
+	// had to cut), or the assembled block was not accepted
+	if !x.dead && (mined.cut || !mined.accepted || !mined.prefix) {
+		x.emitMine(mined)
+	}
 }
 
 func (x *Exec) isUnconfirmed(name int) bool {
@@ -1103,13 +1186,11 @@ func (x *Exec) MineStep() {
 	x.ensureFresh()
 	v1 := x.N.CM.PoolTransactions()
 	v2 := x.N.CM.V2PoolTransactions()
-	r := "accepted"
-	if _, err := validatePrefixes(x.S.Node(x.Tip).L, v1, v2); err != nil || !x.mineAudit(v1, v2, true) {
-		r = "rejected"
+	if _, err := validatePrefixes(x.S.Node(x.Tip).L, v1, v2); err != nil {
+		return // reported by Obs
 	}
-	x.emit(map[string]any{"op": "Mine", "r": r})
-	x.note("mine -> %s", r)
-	x.Res.Eval(fmt.Sprintf("%s|mine|%d|%v|%v", x.S.Name, x.Tip, x.p1, x.p2))
+	_, mb := x.mineAudit(v1, v2, true)
+	x.emitMine(mb)
 }
 
 // proofsEqualLedger compares every proof-carrying element of txn with the independent ledger's
